@@ -11,7 +11,7 @@ EXTENDS BitVec, Json, IOUtils, TLC
 Rec == ndJsonDeserialize(IOEnv.TRACE)
 
 VARIABLES l, skip
-tvars == <<abs, store, nw, form, l, skip>>
+tvars == <<abs, store, nw, form, tight, l, skip>>
 
 
 TraceInit == BVInit /\ l = 1 /\ skip = FALSE
@@ -19,7 +19,7 @@ TraceInit == BVInit /\ l = 1 /\ skip = FALSE
 \* growth choice read from the log (the properties do not fix it)
 GrowthOf(ev) ==
     LET a    == Eff(ev, [nw |-> nw, garb |-> {}]).st.abs
-        base == IF ev.op \in Ctors THEN 0 ELSE nw
+        base == IF ev.op \in Rebuilds THEN 0 ELSE nw
         lo   == IF base * W > Len(a) THEN base * W ELSE Len(a)
     IN  [nw |-> ev.nw, garb |-> {p \in ToSet(ev.store) : p >= lo}]
 
@@ -33,6 +33,10 @@ Why(ev, x, g) ==
     ELSE IF ToSet(ev.store) # x.st.store THEN "store"
     ELSE IF x.rk = "val" /\ ev.res # x.res THEN "result"
     ELSE IF x.rk = "copy" /\ ~CopyOK(ev.res) THEN "copy"
+    ELSE IF x.rk = "mem" /\ ~MemOK(ev.res) THEN "mem-size-bound"
+    ELSE IF x.rk = "cap" /\ ~CapOK(ev.res) THEN "capacity"
+    ELSE IF x.rk = "hint" /\ ev.hr # x.hr THEN "bad-hint"
+    ELSE IF x.rk = "hint" /\ ev.res # x.res THEN "result"
     ELSE "ok"
 
 Step ==
@@ -40,22 +44,22 @@ Step ==
     /\ l' = l + 1
     /\ LET ev == Rec[l] IN
        IF ev.op = "BEGIN"
-       THEN /\ abs' = <<>> /\ store' = {} /\ nw' = 0 /\ form' = "none"
+       THEN /\ abs' = <<>> /\ store' = {} /\ nw' = 0 /\ form' = "none" /\ tight' = TRUE
             /\ skip' = FALSE
-       ELSE IF skip THEN UNCHANGED <<abs, store, nw, form, skip>>
+       ELSE IF skip THEN UNCHANGED <<abs, store, nw, form, tight, skip>>
        ELSE LET g == GrowthOf(ev)
                 x == Eff(ev, g)
                 w == Why(ev, x, g)
             IN  IF w = "ok"
-                THEN Install(x.st) /\ skip' = FALSE
+                THEN Install(x.st, TightAfter(ev, x)) /\ skip' = FALSE
                 ELSE /\ PrintT(<<"MISMATCH", ev.ep, ev.seq, ev.op, w>>)
                      /\ skip' = TRUE
-                     /\ UNCHANGED <<abs, store, nw, form>>
+                     /\ UNCHANGED <<abs, store, nw, form, tight>>
 
 Finish == /\ l = Len(Rec) + 1
           /\ PrintT(<<"TRACE-END", Len(Rec)>>)
           /\ l' = l + 1
-          /\ UNCHANGED <<abs, store, nw, form, skip>>
+          /\ UNCHANGED <<abs, store, nw, form, tight, skip>>
 
 TraceNext == Step \/ Finish
 TraceSpec == TraceInit /\ [][TraceNext]_tvars
